@@ -1,17 +1,14 @@
 use tiny_skia::*;
 fn main() {
-    let dst = PremultipliedColorU8::from_rgba(0, 64, 64, 129).unwrap();
-    for cs in [ColorSpace::Linear, ColorSpace::Gamma2] {
-        let mut paint = Paint::default();
-        paint.set_color_rgba8(128, 187, 255, 1);
-        paint.blend_mode = BlendMode::SourceOver;
-        paint.colorspace = cs;
-        for fr in [0.0f32, 0.1, 0.5, 0.9] {
-            paint.anti_alias = true;
-            let mut pm = Pixmap::new(16, 4).unwrap();
-            for p in pm.pixels_mut() { *p = dst; }
-            pm.fill_rect(Rect::from_ltrb(2.0 + fr, 1.0, 12.0 + fr, 3.0).unwrap(), &paint, Transform::identity(), None);
-            println!("{:?} fr {}: edge-left {:?} interior {:?} edge-right {:?}", cs, fr, pm.pixel(2, 1).unwrap(), pm.pixel(5, 1).unwrap(), pm.pixel(12, 1).unwrap());
-        }
+    let mut pb = PathBuilder::new();
+    pb.move_to(10.0, 10.0);
+    pb.cubic_to(40.0, 5.0, 60.0, 80.0, 90.0, 20.0);
+    pb.quad_to(50.0, 50.0, 20.0, 70.0);
+    let path = pb.finish().unwrap();
+    let stroke = Stroke { width: 4.0, line_join: LineJoin::Round, ..Stroke::default() };
+    for rs in [1.0f32, 1e6, 1e20, f32::MAX, f32::INFINITY, f32::NAN, 0.0, -1.0, 1e-30] {
+        let t = std::time::Instant::now();
+        let r = PathStroker::new().stroke(&path, &stroke, rs);
+        println!("res_scale {:e}: {:?} segments, {:?}", rs, r.map(|p| p.verbs().len()), t.elapsed());
     }
 }
